@@ -167,13 +167,14 @@ pub fn sim_spawn(program: &str, args: &[String], fds: Vec<(brush_core::ShellFd, 
 pub fn bin_dir() -> std::path::PathBuf {
     use std::os::unix::fs::PermissionsExt;
     let d = crate::runner::scratch_root().join("bin");
-    if !d.join("xseq").exists() {
+    static READY: std::sync::OnceLock<()> = std::sync::OnceLock::new();
+    READY.get_or_init(|| {
         let _ = std::fs::create_dir_all(&d);
         for p in PROGRAMS {
             let f = d.join(p);
             let _ = std::fs::write(&f, "#!/bin/false\n");
             let _ = std::fs::set_permissions(&f, std::fs::Permissions::from_mode(0o755));
         }
-    }
+    });
     d
 }
